@@ -24,7 +24,7 @@ def main(tier, replay=None):
     t0 = time.time()
     if replay:
         return cc.run_replay(PROP, "C03", replay, cc.pattern_vec)
-    res = cc.vec_pipeline(PROP, "C03", "MC_Codec_vec_%s.cfg" % tier, tier, cc.pattern_vec)
+    res = cc.vec_pipeline(PROP, "C03", "MC_Codec_vec_%s.cfg" % tier, tier, cc.pattern_vec, sso_variants=True)
     cc.require_all_kinds(res["by_kind"])
     mc = res["mc"]
     cov = {
@@ -42,6 +42,7 @@ def main(tier, replay=None):
                 "vectors built by the real builder and compared byte for byte." % tier,
         "vectors_per_kind": res["by_kind"],
         "panics_observed": res["panics"],
+        "sso_feature_builds": res["sso_variants"],
         "violating_records": res["violating_records"],
         "checker_cmd": "tlc MC_Codec_vec_%s.cfg MC_Codec; codec-harness vec; MODE=C03 tlc Trace_Codec" % tier,
     }
